@@ -16,6 +16,7 @@ import (
 	"github.com/jsightapi/jsight-schema-core/fs"
 	"pgregory.net/rapid"
 
+	"github.com/jsightapi/jsight-api-core/core"
 	"github.com/jsightapi/jsight-api-core/kit"
 
 	"verif/vlib"
@@ -54,12 +55,16 @@ func c18Serialise(j *kit.JApi, ops string) (r c18Result) {
 	return
 }
 
-func c18Build(name string, src []byte) (kit.JApi, bool) {
+func c18Build(name string, src []byte, bans []string) (kit.JApi, bool) {
 	var j kit.JApi
 	ok := false
 	vlib.Safely(func() {
 		var je error
-		jj, e := kit.NewJApiFromFile(fs.NewFile(name, src))
+		var opts []core.Option
+		for _, b := range bans {
+			opts = append(opts, vlib.BanOption(b)) // option values shared by all the builds of the process
+		}
+		jj, e := kit.NewJApiFromFile(fs.NewFile(name, src), opts...)
 		if e != nil {
 			je = e
 		}
@@ -68,6 +73,22 @@ func c18Build(name string, src []byte) (kit.JApi, bool) {
 		}
 	})
 	return j, ok
+}
+
+// c18Bans: the ban set of document i of the workload (none, one kind, or two kinds given as two option values).
+func c18Bans(c *vlib.Case, i int) []string {
+	all, _ := c.Params["bans"].([]any)
+	if len(all) == 0 {
+		return nil
+	}
+	set, _ := all[i%len(all)].([]any)
+	var out []string
+	for _, x := range set {
+		if s, ok := x.(string); ok {
+			out = append(out, s)
+		}
+	}
+	return out
 }
 
 func raceLogFile() string {
@@ -138,7 +159,7 @@ func c18Run(c *vlib.Case) (*vlib.Violation, string) {
 	baseline := func() []c18Result {
 		out := make([]c18Result, len(docs))
 		for i, d := range docs {
-			if j, ok := c18Build(fmt.Sprintf("/c18/d%d.jst", i), d); ok {
+			if j, ok := c18Build(fmt.Sprintf("/c18/d%d.jst", i), d, c18Bans(c, i)); ok {
 				out[i] = c18Serialise(&j, ops)
 			} else {
 				out[i] = c18Result{json: "REJECTED"}
@@ -158,7 +179,7 @@ func c18Run(c *vlib.Case) (*vlib.Violation, string) {
 	var sharedAPI kit.JApi
 	sharedOK := false
 	if shared {
-		sharedAPI, sharedOK = c18Build("/c18/shared.jst", docs[0])
+		sharedAPI, sharedOK = c18Build("/c18/shared.jst", docs[0], c18Bans(c, 0))
 		if !sharedOK {
 			return nil, ""
 		}
@@ -173,7 +194,7 @@ func c18Run(c *vlib.Case) (*vlib.Violation, string) {
 				results[i] = c18Serialise(&sharedAPI, ops)
 			} else {
 				d := docs[i%len(docs)]
-				if j, ok := c18Build(fmt.Sprintf("/c18/d%d.jst", i%len(docs)), d); ok {
+				if j, ok := c18Build(fmt.Sprintf("/c18/d%d.jst", i%len(docs)), d, c18Bans(c, i%len(docs))); ok {
 					results[i] = c18Serialise(&j, ops)
 				} else {
 					results[i] = c18Result{json: "REJECTED"}
@@ -272,6 +293,24 @@ func c18Docs(r vlib.Rnd, n int) []any {
 	return out
 }
 
+// c18GenBans: in a third of the workloads the builds are configured with banned directives, different sets for different
+// documents, given as one option value per kind; the kinds are such that the generated documents rarely contain them.
+func c18GenBans(r vlib.Rnd, nd int) []any {
+	if !vlib.Chance(r, 1, 2) {
+		return nil
+	}
+	kinds := []string{"MACRO", "PASTE", "INCLUDE"}
+	var out []any
+	for i := 0; i < nd; i++ {
+		var set []any
+		for k := 1 + r.Intn(2); k > 0; k-- {
+			set = append(set, vlib.Pick(r, kinds))
+		}
+		out = append(out, set)
+	}
+	return out
+}
+
 var c18Work = &vlib.Check{
 	Prop: "C18", Name: "workloads", Quick: 360, Thorough: 16000,
 	Oracle: c18Oracle, Inner: c18Run,
@@ -288,12 +327,15 @@ var c18Work = &vlib.Check{
 		docs := c18Docs(r, nd)
 		return &vlib.Case{Project: vlib.SingleFile([]byte(docs[0].(string))), Params: map[string]any{
 			"docs": docs, "goroutines": g, "shared": shared, "cold": vlib.Chance(r, 1, 2),
-			"ops": vlib.Pick(r, []string{"j", "jo", "o", "j", "jo", ""}), "procs": vlib.Pick(r, []int{2, 4, 16})}}
+			"ops": vlib.Pick(r, []string{"j", "jo", "o", "j", "jo", ""}), "procs": vlib.Pick(r, []int{2, 4, 16}), "bans": c18GenBans(r, nd)}}
 	},
 	Classify: func(c *vlib.Case) (bool, []string) {
 		cls := []string{fmt.Sprintf("goroutines-%d", asInt(c.Params["goroutines"])), "ops-" + fmt.Sprint(c.Params["ops"])}
 		if c.Params["shared"] == true {
 			cls = append(cls, "shared-catalog")
+		}
+		if bb, _ := c.Params["bans"].([]any); len(bb) > 0 {
+			cls = append(cls, "builds-with-ban-options")
 		}
 		if c.Params["cold"] == true {
 			cls = append(cls, "cold")
